@@ -1482,7 +1482,8 @@ void CDNS::IndexListItem::read(CdnsDecoder& dec)
     reset();
     bool indef = false;
     uint64_t length = dec.read_array_start(indef);
-    list.reserve(length);
+    // The length comes from the input: don't reserve more than one decoder buffer ahead of the data actually read
+    list.reserve(length < CdnsDecoder::BUFFER_SIZE ? length : CdnsDecoder::BUFFER_SIZE);
 
     while (length > 0 || indef) {
         if (indef && dec.peek_type() == CborType::BREAK) {
